@@ -43,6 +43,8 @@ class State(object):
         for c in cs:
             if c is None:
                 continue
+            if isinstance(c, bool):
+                raise TypeError("python bool assumed (encoder bug): %r" % c)
             if z3.is_true(c):
                 continue
             self.pc.append(c)
